@@ -18,9 +18,10 @@ _work = None
 
 def workdir():
     global _work
-    if _work is None:
-        _work = os.path.join(VERIF, ".work", f"smt-{os.getpid()}")
-        os.makedirs(_work, exist_ok=True)
+    if _work is None or not os.path.isdir(_work):
+        w = os.path.join(VERIF, ".work", f"smt-{os.getpid()}")
+        os.makedirs(w, exist_ok=True)
+        _work = w
     return _work
 
 
